@@ -28,12 +28,13 @@ class ModelSim final : public Engine {
   std::string GenDef(Ctx& c, CstType type) {
     auto& r = c.gen; const auto env = EnvOf(*m);
     exprgen::Gen g(r, env, static_cast<int>(c.C("expr_depth", 2)));
+    g.siblingReuse = r.Pct(static_cast<int>(c.C("p_reuse_locals", 5)));   // sibling scopes binding one name (legal; nested reuse would be rejected)
     std::string def;
     switch (type) {
     case CstType::base: case CstType::constant: def = ""; break;
     case CstType::structured: def = g.StructureDef(); break;
     case CstType::axiom: case CstType::theorem: def = g.TopLevel(true); break;
-    case CstType::term: def = g.TopLevel(false); break;
+    case CstType::term: def = g.TopLevel(false); if (g.siblingReuse && r.Pct(50)) def = "(" + def + "," + g.TopLevel(false) + ")"; break;   // a pair of independent expressions: their scopes are siblings
     case CstType::function: def = g.FunctionDef(false); break;
     default: def = g.FunctionDef(true); break;
     }
@@ -55,6 +56,7 @@ class ModelSim final : public Engine {
         return def;
       }
     }
+    if (r.Pct(static_cast<int>(c.C("p_reuse_locals", 5)))) def = exprgen::ReuseLocalNames(def);   // sibling scopes binding one name (legal; nested reuse is rejected by the checker)
     if (r.Pct(static_cast<int>(c.C("p_mutant", 8)))) def = exprgen::Mutate(r, def, env);
     return def;
   }
@@ -104,7 +106,7 @@ class ModelSim final : public Engine {
 public:
   const char* Name() const override { return "modelsim"; }
   std::vector<std::string> Properties() const override { return { "C11", "C02", "C16", "C10", "C04" }; }
-  uint64_t DefaultRuns(const std::string& f, bool thorough) const override { (void)f; return thorough ? 250000 : 12000; }
+  uint64_t DefaultRuns(const std::string& f, bool thorough) const override { return thorough ? 250000 : (f == "C02" ? 20000 : 12000); }
   unsigned WatchdogSecs() const override { return 4; }
   Cfg GenCfg(Rng& r, const std::string& f, bool) override {
     Cfg c; c["steps"] = r.Range(8, 40); c["max_cst"] = r.Range(5, 12);
@@ -116,7 +118,7 @@ public:
     c["base_size"] = r.Range(0, 4);
     c["observe"] = r.Pct(65) ? 1 : r.Range(2, 4);
     c["w_schema"] = r.Range(2, 6); c["w_data"] = r.Range(2, 8); c["w_calc"] = r.Range(2, 8); c["w_persist"] = r.Range(0, 3); c["w_eval"] = r.Range(0, 3);
-    c["p_nested_lazy"] = r.Range(0, 12);
+    c["p_nested_lazy"] = r.Range(0, 12); c["p_reuse_locals"] = f == "C02" ? r.Range(20, 60) : r.Range(0, 10);
     if (f == "C02") { c["w_calc"] = r.Range(5, 10); c["w_eval"] = r.Range(3, 8); c["p_mutant"] = r.Range(0, 30); c["p_nested_lazy"] = r.Range(10, 35); }
     if (f == "C16" || f == "C10") { c["w_persist"] = r.Range(3, 8); c["w_data"] = r.Range(4, 10); }
     if (f == "C04") { c["w_persist"] = r.Range(4, 9); c["p_mutant"] = r.Range(10, 40); }
@@ -160,6 +162,7 @@ private:
   void ExecPersist(Ctx& c, const Op& op);
   bool CheckModelRoundTrip(Ctx& c, const std::string& trig, std::string& J);
   void CheckPacking(Ctx& c, const std::string& trig);
+  void PackProbe(Ctx& c, uint64_t seed);
 };
 
 #include "modelsim_ops.inc"
